@@ -41,7 +41,7 @@ Frag == {"block", "inline", "floatl", "floatr-tall", "abs-far", "fixed", "table"
          "columns", "colspan-all", "columns-fill", "page-named", "bb-page", "bb-left", "ba-right", "bb-recto", "bi-avoid-tall", "ba-avoid", "orphans",
          "footnote", "footnote-tall", "footnote-disp", "running", "string-set", "tall", "target", "anchor", "big-font", "lh-huge", "pre-long", "break-all",
          "osc-pages", "pages-text", "full-table-coll", "full-table-sep", "full-list", "full-flex", "full-grid", "full-columns", "long-text", "footnotes-many",
-         "floats-many", "abs-in-rel"}
+         "floats-many", "abs-in-rel", "full-table-head"}
 All == Core \cup Frag \cup
        {"floatr-tall", "abs-far", "fixed", "relative", "tr", "td-span", "caption", "thead", "tfoot", "col", "cell-div", "row-div", "table-coll", "inline-table",
         "flex-colwrap", "inline-flex", "grid-areas", "griditem-area", "grid-minmax", "colspan-all", "columns-fill", "li-outside", "ol", "marker",
@@ -52,7 +52,7 @@ All == Core \cup Frag \cup
         "decor", "border-image", "line-clamp", "object-fit", "unknown-elem", "details", "sticky", "big-font", "zero-font", "lh-huge", "min-content",
         "fit-content", "clear", "fontface", "counter-style", "svg-img-ref", "media", "nested-rule", "attr-hints", "font-hints", "center", "base",
         "meta-link", "style-attr", "osc-pages", "pages-text", "full-table-coll", "full-table-sep", "full-list", "full-flex", "full-grid",
-        "full-columns", "long-text", "footnotes-many", "var-lasso", "floats-many", "abs-in-rel", "calc-nested", "attr-typed"}
+        "full-columns", "long-text", "footnotes-many", "var-lasso", "floats-many", "abs-in-rel", "calc-nested", "attr-typed", "full-table-head"}
 Bundles == CASE Set = "core" -> Core [] Set = "frag" -> Frag [] OTHER -> All
 
 Invalid == {"unknown-prop", "bad-value", "bad-at-rule", "bad-selector", "bad-important"}
